@@ -12,10 +12,12 @@ package c15
 import (
 	"fmt"
 	"math/big"
+	"runtime"
 	"runtime/debug"
 	"strings"
 	"testing"
 
+	"github.com/dominant-strategies/go-quai/common"
 	"github.com/dominant-strategies/go-quai/core/vm"
 	"pgregory.net/rapid"
 
@@ -276,4 +278,98 @@ func TestC15B_OperandsExhaustive(t *testing.T) {
 	}
 	stats.Exhaustive("operands-exhaustive")
 	t.Logf("ran %d tuples", n)
+}
+
+// TestC15B_Precompiles: every precompiled contract (addresses 1..9 of the zone and the lockup
+// contract) called by a contract with hostile inputs: for modexp the three 32-byte length words
+// are drawn from the boundary values (a gas function and a run function that disagree about a
+// special case make memory unbounded by gas); for the others lengths around every parser
+// boundary with zero / 0xff / patterned content. 100k-1M gas. Oracle: no panic; and the bytes
+// allocated while the transaction runs stay far below what only an unpaid allocation can reach
+// (the budget buys < 1 MiB of EVM memory; the threshold is 48 MiB).
+func TestC15B_Precompiles(t *testing.T) {
+	u := evmgen.U()
+	targets := append(append([]common.Address{}, u.Precompiles...), u.Lockup)
+	lens := []int{0, 1, 31, 32, 33, 63, 64, 65, 95, 96, 97, 127, 128, 129, 160, 191, 192, 193, 212, 213, 214, 256, 384, 385, 1024}
+	rapid.Check(t, func(rt *rapid.T) {
+		ti := rapid.IntRange(0, len(targets)-1).Draw(rt, "precompile")
+		var input []byte
+		kind := "pattern"
+		if ti == 4 && rapid.IntRange(0, 3).Draw(rt, "modexpHeader") > 0 { // address ..05 = modexp
+			kind = "modexp-lengths"
+			for i := 0; i < 3; i++ {
+				w := c15bHostile[rapid.IntRange(0, len(c15bHostile)-1).Draw(rt, fmt.Sprintf("len%d", i))]
+				if rapid.IntRange(0, 2).Draw(rt, fmt.Sprintf("small%d", i)) == 0 {
+					w = big.NewInt(int64(rapid.IntRange(0, 64).Draw(rt, fmt.Sprintf("lenv%d", i))))
+				}
+				input = append(input, common.LeftPadBytes(w.Bytes(), 32)...)
+			}
+			input = append(input, rapid.SliceOfN(rapid.Byte(), 0, 96).Draw(rt, "operands")...)
+		} else {
+			n := lens[rapid.IntRange(0, len(lens)-1).Draw(rt, "len")]
+			input = make([]byte, n)
+			switch rapid.IntRange(0, 3).Draw(rt, "fill") {
+			case 1:
+				for i := range input {
+					input[i] = 0xff
+				}
+			case 2:
+				for i := range input {
+					input[i] = byte(i*37 + 1)
+				}
+			case 3:
+				copy(input, rapid.SliceOfN(rapid.Byte(), n, n).Draw(rt, "bytes"))
+			}
+		}
+		op := []vm.OpCode{vm.STATICCALL, vm.CALL, vm.DELEGATECALL}[rapid.IntRange(0, 2).Draw(rt, "op")]
+		gas := uint64(rapid.SampledFrom([]int{100_000, 1_000_000}).Draw(rt, "gas"))
+		c := c15bHand(gas, func(a *evmgen.Asm) {
+			a.Op(vm.CALLDATASIZE).Push(0).Push(0).Op(vm.CALLDATACOPY)
+			a.Push(64).Push(0).Op(vm.CALLDATASIZE).Push(0)
+			if op == vm.CALL {
+				a.Push(0)
+			}
+			a.PushAddr(targets[ti]).Op(vm.GAS, op, vm.POP, vm.STOP)
+		})
+		c.Tx.Data = input
+		c.Tx.Gas = gas + 16*uint64(len(input))
+		c.Mode = []string{evmgen.ModeUntraced, evmgen.ModeTracedBypass}[rapid.IntRange(0, 1).Draw(rt, "mode")]
+		c.Env.PrimeTerminusNumber = evmgen.Regimes[rapid.IntRange(0, len(evmgen.Regimes)-1).Draw(rt, "regime")]
+		name := u.Name(targets[ti])
+		dump := map[string]any{"precompile": name, "call": op.String(), "input": fmt.Sprintf("%x", input), "gas": gas, "kind": kind}
+		var o *evmgen.Outcome
+		var err error
+		var ms0, ms1 runtime.MemStats
+		runtime.ReadMemStats(&ms0)
+		func() {
+			defer func() {
+				if r := recover(); r != nil {
+					cr := analyse(r, debug.Stack())
+					stats.Violation(rt, "precompiles", "C15/panic/"+cr.fp+"/precompile="+name, fmt.Sprintf("calling %s with input %x (%d gas) panics: %v", name, input, gas, r), dump)
+				}
+			}()
+			o, err = c.Run()
+		}()
+		runtime.ReadMemStats(&ms1)
+		if err != nil {
+			rt.Fatalf("HARNESS: %v", err)
+		}
+		if o == nil {
+			return
+		}
+		alloc := ms1.TotalAlloc - ms0.TotalAlloc
+		if alloc > 48<<20 {
+			dump["bytes_allocated"] = alloc
+			stats.Violation(rt, "precompiles", "C15/alloc-unpaid/precompile="+name, fmt.Sprintf("calling %s with a %d-byte input and %d gas allocated %d MiB while the transaction ran", name, len(input), gas, alloc>>20), dump)
+			return
+		}
+		outcome := "rejected"
+		if o.Res.Err == nil {
+			outcome = fmt.Sprintf("status=%d", o.Res.Receipt.Status)
+		}
+		stats.Case("precompiles", fmt.Sprintf("%s|%s|%s|%d", name, kind, outcome, len(input)), true, "target:"+name, "kind:"+kind)
+		if stats.WantSample("precompiles") {
+			stats.Sample("precompiles", dump)
+		}
+	})
 }
